@@ -8,6 +8,35 @@ VERIF = os.path.dirname(os.path.dirname(os.path.dirname(os.path.abspath(__file__
 TRUST = 'trusted: clang 14 front end (AST, CFG, constant evaluator), engine/extractor/ebusfacts.cc, engine/py analyses; '
 
 CHECKS = {
+    'C01': dict(
+        text='the per-symbol state machine is extracted from the clang CFG (65 setState transitions with source state, target, '
+             'result class, repetition flag and regional guard atoms) and compared with a reference automaton; every report '
+             'site is guarded by CRC validity and the required acknowledge; source/destination validation dominates every '
+             'append; CRC over raw symbols in exactly the data states; state-entry resets incl. the SYN re-synchronisation; '
+             'one-repetition typestate per part; device symbol delivery. Decides these structural clauses for all inputs; '
+             'exactness over all byte streams, ordering and chunking independence are not decided.',
+        note=TRUST + 'engine/spec/bus_automaton.json (reference transitions written from the eBUS protocol rules)',
+        technique='automaton extraction from the CFG + containment in a reference relation, guard-set dominance, must-pass-through'),
+    'C02': dict(
+        text='same extracted automaton, active side: send-state transitions contained in the reference, own exchanges end '
+             'with SYN, symbol source per send state and escape coverage of every non-SYN symbol, one repetition per part, '
+             'restart of a repeated part from CRC 0 / position 0, ACK iff CRC valid, echo check, result hand-over. Byte-exact '
+             'wire contents for all telegrams are not decided.',
+        note=TRUST + 'engine/spec/bus_automaton.json',
+        technique='automaton extraction + containment, must-pass-through and guard dominance on the CFG'),
+    'C03': dict(
+        text='every bus-write site (3 device sends, arbitration start, plain-device arbitration write, AUTO-SYN) is found '
+             'through resolved callees and its guard set must contain the entitlement atoms (not read-only, request/answer '
+             'ownership, lock counter 0, lone SYN, generation interval); producers of the request queue; error transitions '
+             'never lead to a transmitting state unless flagged as repetition or closing SYN. Timing is not decided.',
+        note=TRUST + 'adapter-side arbitration of the enhanced protocol is outside the code base',
+        technique='who-may-call + guard-set dominance over the extracted automaton'),
+    'C04': dict(
+        text='ownership typestate of the current request in setState (notify once, exactly one sink, pointer cleared), take '
+             'discipline between queue and current request, who-may-call for notify/delete, unconditional drain on signal '
+             'loss, lock pairing and wait-loop exits of Queue<T>. Liveness under faults and thread schedules are not decided.',
+        note=TRUST + 'setState(noSignal) is never called with a non-negative result while a request is current (caller invariant)',
+        technique='typestate exploration on the CFG, must-pass-through, who-may-call, lock pairing'),
     'C05': dict(
         text='static table conformance: all 80 built-in type rows (every constructor argument, evaluated by clang) equal '
              'the reference table and satisfy per-kind invariants (widths, BCD maxima on the decoded value, replacement '
